@@ -72,11 +72,11 @@ prop("C07", True,
      EVAL_NOTE, "5.7",
      "cases = (function, argument values). Non-trivial = an argument has a multi-byte character, or the translate map overlaps/repeats/differs in length, or there are inner whitespace runs, or a bound is non-integral/NaN/infinite; distinct by (function, arguments).")
 prop("C08", True,
-     "property-based testing (rapid): typed ASTs rendered under five styles and evaluated against the AST's reference value; non-expressions built by invalid-by-construction mutations must be rejected",
-     "Generated search: operator-heavy typed ASTs (all binary operators over operands of all types, same- and mixed-precedence chains, unary minus chains, unions, keyword-spelled names, names with '-', '.', digits) are rendered with minimal parentheses, redundant parentheses, arbitrary legal white space, abbreviated steps and all three combined; every rendering must compile and evaluate to the reference value of the AST on a generated document with distinguishable operands (so wrong precedence, associativity, token boundaries or dropped sub-expressions change the value). Token-level mutations that cannot yield an XPath expression (13 families: unbalanced brackets, dangling/leading/doubled operators, empty predicates/parentheses, junk suffixes, illegal characters, '$ name', bad axes, argument lists, numbers, unterminated literals) must make BuildExpr return an error.",
-     EVAL_NOTE + " The seven grammar-level known findings (see known_findings.json) are excluded by construction or by the counted '/*' feature test.",
+     "property-based testing (rapid) + native coverage-guided fuzzing (FuzzC08, thorough tier): typed ASTs rendered under five styles and evaluated against the AST's reference value; invalid-by-construction mutations must be rejected; arbitrary strings judged by an independent strict/lenient recogniser sandwich with reference evaluation of the strictly valid ones",
+     "Generated search: operator-heavy typed ASTs (all binary operators over operands of all types, same- and mixed-precedence chains, unary minus chains, unions, keyword-spelled names, names with '-', '.', digits) are rendered with minimal parentheses, redundant parentheses, arbitrary legal white space, abbreviated steps and all three combined; every rendering must compile and evaluate to the reference value of the AST on a generated document with distinguishable operands (so wrong precedence, associativity, token boundaries or dropped sub-expressions change the value). Token-level mutations that cannot yield an XPath expression (13 families: unbalanced brackets, dangling/leading/doubled operators, empty predicates/parentheses, junk suffixes, illegal characters, '$ name', bad axes, argument lists, numbers, unterminated literals) must make BuildExpr return an error. Token soup, damaged expressions and (thorough) coverage-guided fuzz inputs are judged by the harness's own recursive-descent parser in two modes: strictly valid => accepted, and evaluated to the parsed AST's reference value when the reference can evaluate it; accepted => leniently valid.",
+     EVAL_NOTE + " The grammar-level known findings (see known_findings.json) are excluded by construction, by the counted '/*' feature test, or fall between the strict and the lenient recogniser (counted, not judged).",
      "5.8",
-     "cases = (AST, five renderings, document) and mutated strings. Non-trivial positives = >= 2 binary operators of different precedence or >= 2 of the same, or a keyword-spelled name, or a minus adjacent to a name; negatives: every mutated string; distinct by text.")
+     "cases = (AST, five renderings, document), mutated strings and arbitrary strings (sandwich). Non-trivial positives = >= 2 binary operators of different precedence or >= 2 of the same, or a keyword-spelled name, or a minus adjacent to a name; negatives: every mutated string; distinct by text.")
 prop("C09", True,
      "property-based testing (rapid): abstract documents serialised under generated choices, parsed by ReadXml and walked in parallel with the model; targeted malformations must return an error",
      "Generated search: abstract documents are rendered as XML text under drawn serialisation choices (prefixes, default namespace with undeclaration and rebinding, declaration order, quote style, character/entity references, CDATA splits and empty CDATA, XML declaration with UTF-8 and five 8-bit/ASCII charsets encoded with x/text/charmap, DOCTYPE, prolog/epilog comments and PIs, top-level white space, empty-tag forms); the cursor tree must equal the model (elements, attributes without declarations, merged text, comments, PIs, one namespace node per in-scope binding incl. xml, each owned by its element). Eight families of malformation (mismatched/missing end tag, truncation, undefined entity, invalid character/encoding, unquoted attribute, unknown charset, doubled '<') must yield a non-nil error.",
@@ -95,7 +95,7 @@ prop("C12", True,
      "cases = (document, context node, call). Non-trivial = context node is not a no-namespace element, or the result is a {uri}local name, or an error is required; for lang: every (declared tag, queried tag, context kind) relation; distinct by those tuples.")
 prop("C13", True,
      "stateful property-based testing (rapid): generated histories of Exec/re-Exec/sub-slice/rebuild/Unmarshal over shared trees, compiled expressions, binding maps and aliased slices, with snapshot invariants after every step",
-     "Generated search: histories of 4-25 operations over one document, 3-6 reused compiled expressions (unions, paths and predicates over $v/$w) and caller-owned binding maps; results are held as caller slices, sub-sliced with spare capacity, bound again as $v and $w (also the same slice twice). After every step the harness compares a deep snapshot of the tree (pointer identity, Pos, kind, names, values, list sizes, parents), every held slice including its backing array up to cap, and the binding maps; re-executions and freshly rebuilt expressions must reproduce the recorded result exactly.",
+     "Generated search: histories of 4-25 operations over one document, 3-6 reused compiled expressions (unions, paths, self steps and predicates over $v/$w, absolute paths inside predicates that depend on variables, prefixed variables and name tests) and bindings that vary between the operations (two namespace maps with the prefixes swapped, two sets of variable values, a prefix bound for one query only; passed either as caller-owned maps or through the With* option functions only); results are held as caller slices, sub-sliced with spare capacity, bound again as $v and $w (also the same slice twice). After every step the harness compares a deep snapshot of the tree (pointer identity, Pos, kind, names, values, list sizes, parents), every held slice including its backing array up to cap, and the binding maps; re-executions and freshly rebuilt expressions must reproduce the recorded result exactly, a namespaced variable must have the value bound under the query's own bindings, and a prefix bound only for an earlier query must be unbound.",
      "Results are compared by value and node identity, not by slice identity (returning the caller's slice unchanged is allowed).",
      "5.13",
      "cases = histories. Non-trivial = the history re-executes an earlier triple after other queries ran and some query bound a held slice as $v/$w; distinct by (expressions, operations, document).")
@@ -113,20 +113,20 @@ prop("C17", True,
      "cases = HTML texts. Non-trivial = the DOM has >= 8 nodes and at least one of: childless last child, sibling after a depth >= 3 subtree, node after </html>, implied elements, foreign content, template; distinct by text.")
 prop("C18", True,
      "property-based testing (rapid): differential of relative expressions from every node kind (position 1, size 1) + composition law P/R = union of R from each node of P + P/f() = f(P), on the implementation",
-     "Generated search: every node of every kind as starting cursor x relative expressions (all axes incl. those leaving the subtree, predicates, position(), last(), context-dependent functions) compared with the reference evaluated with that context node, position 1, size 1; for independently drawn absolute P and relative R the node-set of P/R from the root must equal the union over n in Exec(root,P) of Exec(n,R); P/f() must equal f(P) for the seven context-dependent builtins.",
+     "Generated search: every node of every kind as starting cursor x relative expressions (all axes incl. those leaving the subtree, predicates, position(), last(), context-dependent functions) compared with the reference evaluated with that context node, position 1, size 1; for independently drawn absolute P and relative R the node-set of P/R from the root must equal the union over n in Exec(root,P) of Exec(n,R); P/f() must equal f(P) for the seven context-dependent builtins; Unmarshal into slices of structs whose tags use position(), last(), name(..), sibling/ancestor counts must give every element the values Exec gives from that element's node.",
      EVAL_NOTE, "5.18",
      "cases = (document, start node, relative expression) and (document, P, R[, f]). Non-trivial = start node is not an element or an axis leaves its subtree; composition: P selects >= 2 nodes and R carries a predicate; distinct by (start kind and shape, expression) resp. (P/R text, document).")
 
 prop("C14", True,
      "property-based stress testing (rapid) under the Go race detector: generated concurrent Exec programs on shared tree/expressions/bindings vs. their serial results; race-built CLI -c N vs. per-file blocks",
-     "Generated search: one document, 2-6 compiled expressions (weighted toward unions, paths and predicates over a shared node-set variable bound in caller order), one shared set of binding maps; 2-16 goroutines released by a barrier each run a drawn program of Exec calls for 1-4 rounds; every concurrent result must equal the serial result computed beforehand, and the test binary is built with -race (GORACE=halt_on_error: the first report ends the shard and the running case becomes the replay file). CLI: the race-built command runs over generated trees of 10-60 XML/JSON/HTML files (some malformed) with -c 2/4/16; stdout must be a sequence of exactly the per-file blocks (each obtained by running the tool on that file alone), intact and contiguous, in any order.",
+     "Generated search: one document, 2-6 compiled expressions (weighted toward unions, paths and predicates over a shared node-set variable bound in caller order), one shared set of binding maps; 2-16 goroutines released by a barrier each run a drawn program of Exec calls for 1-4 rounds (half of the cases on freshly built expressions that were never executed serially; the expression pool calls every builtin with differing arguments); every concurrent result must equal the serial result computed beforehand, and the test binary is built with -race (GORACE=halt_on_error: the first report ends the shard and the running case becomes the replay file). CLI: the race-built command runs over generated trees of 10-60 XML/JSON/HTML files (some malformed) plus 2-5 files whose output block is tens of kilobytes, with -c 2/4/16; stdout must be a sequence of exactly the per-file blocks (each obtained by running the tool on that file alone), intact and contiguous, in any order.",
      "Coverage of interleavings is probabilistic: this family does not own the Go scheduler. The race detector flags unsynchronised conflicting accesses that execute in a run whether or not the bad interleaving happens. A failing schedule is not replayable as such; the replay re-runs the case 100 times under -race.",
      "5.14",
      "cases = concurrent programs (document, expressions, shared $v, goroutines x operations x rounds) and CLI file trees. Non-trivial = >= 2 goroutines execute an expression over the shared node-set variable of >= 2 nodes; CLI: >= 8 files with -a or -m (multi-line blocks); distinct by (expressions, shared variable, goroutine count, document) resp. (flags, tree).")
 prop("C15", True,
      "property-based testing (rapid) + native coverage-guided fuzzing (go test -fuzz, thorough tier): recover-wrapped entry points over valid, mutated and raw expressions and documents",
-     "Generated search: expression strings from five sources (rendered typed ASTs, ill-typed ASTs, invalid-by-construction token mutations, token soup, raw Unicode) with boundary-value numeric and Unicode variables, nil variable values and hostile constants, executed from the root, an element and an attribute of a fixed or generated document; documents from three sources (valid XML/JSON/HTML serialisations, byte-level mutations, raw bytes) through ReadXml/ReadHtml/ReadJson. Every call runs under recover and a generous deadline: a panic, a nil result with a nil error, an unusable tree/result, an 'xpath query panic' error on a well-typed query, or a call that does not terminate twice within 60 s is a violation. Thorough adds five native fuzz targets (FuzzExpr, FuzzXml, FuzzHtml, FuzzJson, FuzzPair) with the same oracle inside the target.",
-     "Process aborts (fatal errors, stack exhaustion) are seen as a shard dying without a report (exit 2 with the log). Unmarshal targets are covered by C19's unsupported-target check. Inputs are limited to 64 KiB in the fuzz targets.",
+     "Generated search: expression strings from five sources (rendered typed ASTs, ill-typed ASTs, invalid-by-construction token mutations, token soup, raw Unicode) with boundary-value numeric and Unicode variables, nil variable values and hostile constants, executed from the root, an element and an attribute of a fixed or generated document; documents from three sources (valid XML/JSON/HTML serialisations, byte-level mutations, raw bytes) through ReadXml/ReadHtml/ReadJson. Every call runs under recover and a generous deadline: a panic, a nil result with a nil error, an unusable tree/result, an 'xpath query panic' error on a well-typed query, or a call that does not terminate twice within 60 s is a violation. Unmarshal is driven with eighteen kinds of unsupported target (error, never a panic). Thorough adds five native fuzz targets (FuzzExpr, FuzzXml, FuzzHtml, FuzzJson, FuzzPair) with the same oracle inside the target.",
+     "Process aborts (fatal errors, stack exhaustion) are seen as a shard dying without a report (exit 2 with the log). Inputs are limited to 64 KiB in the fuzz targets.",
      "5.15",
      "cases = inputs to BuildExpr/Exec/Read*. Non-trivial = expression of >= 3 tokens or document of >= 8 bytes; distinct by input (and variable values).")
 prop("C19", True,
